@@ -47,7 +47,7 @@ pub fn plan_of(d: &PlanDesc) -> Plan {
                             props.push(("F".into(), PVal::V(Variant::Float32(0.5 + i as f32))));
                             props.push(("R".into(), PVal::Ref(Tgt::Node((i + 1) % n))));
                             props.push(("Sh".into(), PVal::Shared(if i % 2 == 0 { b"even".to_vec() } else { b"odd-content".to_vec() })));
-                            props.push(("C".into(), PVal::V(Variant::Content(if i % 2 == 0 { Content::none() } else { Content::from_uri(format!("rbxassetid://{}", i)) }))));
+                            props.push(("C".into(), PVal::V(Variant::Content(match i % 3 { 0 => Content::none(), 1 => Content::from_uri(format!("rbxassetid://{}", i)), _ => Content::from_uri("") }))));
                             props.push(("Co".into(), PVal::ContentObj(Tgt::Node((i + n - 1) % n))));
                         }
                         "Part" => {
